@@ -8,7 +8,7 @@ EventDispatcher.run calls it.  Obligation: no handler is invoked for a watch aft
 the emitter of an unscheduled watch has been told to stop; routing and at-most-once delivery (shared with C04).
 
 Part B (Engine B, threads): a dispatcher thread inside the real dispatch_events and an application thread issuing
-one removal call (symbolic which) under the symbolic scheduler; every access to BaseObserver._handlers and the start of
+one removal call (one session per call) under the symbolic scheduler; every access to BaseObserver._handlers and the start of
 every callback are scheduling points.  Obligation: no callback of a removed handler starts after the call returned.
 """
 from __future__ import annotations
@@ -216,8 +216,6 @@ def h_race(nh, which):
         obs.add_handler_for_watch(w.handlers[i], w.watches[0])
     em = obs._emitter_for_watch[w.watches[0]]
     em.queue_event(FileCreatedEvent("/p/e0"))
-    if which is None:
-        which = api.choice("removal", REMOVALS)
     td = threading.Thread(target=dispatcher, args=(obs, 1), name="dispatcher")
     tr = threading.Thread(target=remover, args=(obs, w, which), name="application")
     td.start()
@@ -254,16 +252,19 @@ def check(rep):
         sp.update(setup="setup", encode=("watchdog", "queue"), jobs=4, query_timeout_s=900 if quick else 3000,
                   loop_bound=40)
     racy = [("BaseObserver", "_handlers"), ("World", "mark")]
-    conc = [dict(name="race: dispatcher | one removal call (symbolic which), 1 handler", module=mod, harness="h_race",
-                 args=(1, None), steps=24)]
+    conc = []
+    for which in REMOVALS:
+        conc.append(dict(name=f"race: dispatcher | application thread calls {which}(), 1 handler", module=mod,
+                         harness="h_race", args=(1, which), steps=24))
     if not quick:
-        conc.append(dict(name="race: dispatcher | one removal call (symbolic which), 2 handlers", module=mod,
-                         harness="h_race", args=(2, None), steps=30))
+        for which in REMOVALS:
+            conc.append(dict(name=f"race: dispatcher | application thread calls {which}(), 2 handlers", module=mod,
+                             harness="h_race", args=(2, which), steps=30))
     for sp in conc:
         sp.update(setup="setup", encode=("watchdog", "queue"), racy=racy, jobs=4,
                   query_timeout_s=900 if quick else 3000, loop_bound=40)
     specs = specs + conc
-    res = run_sessions(specs, workers=len(specs))
+    res = run_sessions(specs, workers=min(len(specs), 8))
     rep.add_results(res)
     rep.bounds = {"sessions": [sp["name"] for sp in specs], "actions": list(ACTIONS), "removal_calls": list(REMOVALS),
                   "steps_K": [sp.get("steps") for sp in conc]}
